@@ -159,6 +159,7 @@ def gen_step(rng, vals):
             ('rsub_const', None, [i]), ('sum', None, [i]), ('ravel', lambda m, a: a[0].ravel(), [i]), ('T', lambda m, a: a[0].T, [i]),
             ('tile', None, [i]), ('repeat', None, [i]), ('index', None, [i])]
     if nd >= 1:
+        ops += [('const_mix', None, [i]), ('const_mix', None, [i])]
         ops += [('sum_axis', None, [i]), ('slice', None, [i]), ('setitem', None, [i]), ('concat_self', None, [i]),
                 ('stack', None, [i]), ('hstack', None, [i]), ('vstack', None, [i]), ('dstack', None, [i]), ('column_stack', None, [i]),
                 ('array_split', None, [i]), ('split', None, [i]), ('kron', None, [i]), ('outer', None, [i]), ('block', None, [i])]
@@ -288,6 +289,20 @@ def gen_step(rng, vals):
     if name == 'matmul_l':
         c = rc(rng, [rng.randint(1, 3), shape[0]])
         return name, lambda m, a: c @ a[0], ins
+    if name == 'const_mix':
+        # a vector holding the cells of the input AND several distinct purely constant cells, pushed through a matrix whose
+        # rows pick single cells (so that several result cells are distinct pure constants), from the left or from the right
+        size = int(np.prod(shape))
+        cvals = np.array([10.0, 20.0, -30.0, 0.0, 7.5][:rng.randint(2, 5)])
+        tot = size + len(cvals)
+        rows_ = rng.randint(2, tot + 1)
+        sel = np.zeros((rows_, tot))
+        for r_ in range(rows_):
+            sel[r_, rng.randrange(tot)] = float(rng.choice([1, 1, 2, -1]))
+        left = rng.random() < 0.5
+        if left:
+            return name, lambda m, a: sel @ m.concatenate((a[0].ravel(), cvals)), ins
+        return name, lambda m, a: m.concatenate((a[0].ravel(), cvals)) @ sel.T, ins
     if name in ('matmul_sel_l', 'matmul_sel_r', 'matmul_sel_r1'):
         # selection / permutation matrices (rows with a single nonzero entry): result cells that are copies of single cells,
         # in particular of purely constant cells
@@ -525,17 +540,17 @@ def nonlinear_stream(ctx, rng, count):
             else:
                 xp = cl_pos(x[0:1])
         pairs += [(xa, xp, False), (2 * xa + 1, 2 * xp + 1, False), (xa + z[0:1], z[0:1] + xa, True), (xa, x[0:1], False)]
-        for a, b, want in pairs:
-            ctx.case({'stream': 'are_equivalent', 'pair': pairs.index((a, b, want))})
+        for pk, (a, b, want) in enumerate(pairs):
+            ctx.case({'stream': 'are_equivalent', 'pair': pk})
             ctx.count('stream:are_equivalent')
             try:
                 got = Expression.are_equivalent(a, b)
             except Exception as ex:  # noqa: BLE001
-                viols.append(('Expression.are_equivalent raised %s (%s) on pair #%d' % (type(ex).__name__, str(ex)[:60], pairs.index((a, b, want))), None))
+                viols.append(('Expression.are_equivalent raised %s (%s) on pair #%d' % (type(ex).__name__, str(ex)[:60], pk), None))
                 continue
             if bool(got) != want:
-                viols.append(('Expression.are_equivalent is %s on pair #%d whose members are %sfunctionally equal affine Expressions'
-                              % (got, pairs.index((a, b, want)), '' if want else 'not '), None))
+                viols.append(('Expression.are_equivalent is %s on pair #%d whose members are %sfunctionally equal Expressions'
+                              % (got, pk, '' if want else 'not '), None))
     return viols
 
 
